@@ -22,6 +22,7 @@ const version = "0.1.8"
 
 var (
 	flagExecute string
+	executeSet  bool // -e was given, possibly with an empty script
 	file        string
 	args        []string
 	e           *env.Env
@@ -32,7 +33,7 @@ func main() {
 
 	parseFlags()
 	setupEnv()
-	if flagExecute != "" || flag.NArg() > 0 {
+	if flagExecute != "" || executeSet || flag.NArg() > 0 {
 		exitCode = runNonInteractive()
 	} else {
 		exitCode = runInteractive()
@@ -45,13 +46,18 @@ func parseFlags() {
 	flagVersion := flag.Bool("v", false, "prints out the version and then exits")
 	flag.StringVar(&flagExecute, "e", "", "execute the Anko code")
 	flag.Parse()
+	flag.Visit(func(f *flag.Flag) {
+		if f.Name == "e" {
+			executeSet = true
+		}
+	})
 
 	if *flagVersion {
 		fmt.Println(version)
 		os.Exit(0)
 	}
 
-	if flagExecute != "" || flag.NArg() < 1 {
+	if flagExecute != "" || executeSet || flag.NArg() < 1 {
 		args = flag.Args()
 		return
 	}
@@ -68,7 +74,7 @@ func setupEnv() {
 
 func runNonInteractive() int {
 	var source string
-	if flagExecute != "" {
+	if flagExecute != "" || executeSet {
 		source = flagExecute
 	} else {
 		sourceBytes, err := ioutil.ReadFile(file)
